@@ -430,6 +430,8 @@ def observe_(case, rep, want_impl=True):
 def observe(case, rep, want_impl=True):
     """`observe_` guarded: the real code doing something the harness cannot even observe (missing attribute, CODE that
     does not parse, ...) is reported as a failing input, never as an infrastructure error."""
+    if 'prog' not in case:      # whole-script (Pipeline) correspondence case: no grammar AST, nothing for this oracle
+        return None
     try:
         return observe_(case, rep, want_impl)
     except Exception as e:  # noqa: BLE001
